@@ -320,6 +320,47 @@ Print Assumptions raw_nb_recv_refuted.
 Theorem raw_recv_descriptor_mirror : forall u, uq_readers u = [] -> urq_recvable u = negb (urq_get_waits u).
 Proof. exact urq_recvable_mirror. Qed.
 Print Assumptions raw_recv_descriptor_mirror.
+(* the upper read queue of the raw sockets under the repaired msgqueue.c (65cda67 resize runs the queues,
+   e654d99 aio_get runs the writers): blocked readers <=> nothing to read, blocked writers => queue full.
+   Kept by every step of both raw models; a user receive establishes it from any state *)
+Theorem raw_queue_invariant_xsurveyor : forall fx s o s' outs, mf_resize fx = true -> mf_getput fx = true ->
+  UInv (xs_urq s) -> xsurv_step fx s o = (s', outs) -> UInv (xs_urq s').
+Proof. exact xsurv_urq_inv. Qed.
+Print Assumptions raw_queue_invariant_xsurveyor.
+Theorem raw_queue_invariant_xrespondent : forall fx s o s' outs, mf_resize fx = true -> mf_getput fx = true ->
+  UInv (xr_urq s) -> xresp_step fx s o = (s', outs) -> UInv (xr_urq s').
+Proof. exact xresp_urq_inv. Qed.
+Print Assumptions raw_queue_invariant_xrespondent.
+Theorem raw_queue_invariant_init : UInv (xs_urq xsurv_init) /\ UInv (xr_urq xresp_init).
+Proof. exact (conj uinv_init uinv_init). Qed.
+Print Assumptions raw_queue_invariant_init.
+Theorem raw_get_establishes_invariant : forall fx u a, mf_getput fx = true ->
+  UInv (fst (urq_get_fx fx u a)) /\ uq_cap (fst (urq_get_fx fx u a)) = uq_cap u.
+Proof. exact uinv_get. Qed.
+Print Assumptions raw_get_establishes_invariant.
+(* ... refuted for nni_msgq_aio_get as pinned: the reader takes the buffered message, the blocked writer stays
+   blocked although the queue has room (repaired by e654d99) *)
+Theorem raw_get_leaves_writer_blocked_refuted :
+  exists u a, UInv u /\ ~ UInv (fst (urq_get_fx mqfix_none u a)) /\ UInv (fst (urq_get_fx mqfix_all u a)).
+Proof. exact XSurveyProofs.raw_get_leaves_writer_blocked_refuted. Qed.
+Print Assumptions raw_get_leaves_writer_blocked_refuted.
+(* descriptor mirror of the raw sockets, exact on every state satisfying the invariant: the receive descriptor
+   is raised iff a NONBLOCK receive would not return EAGAIN; the send descriptor is always raised and a NONBLOCK
+   send is always accepted (xsurveyor_nb_send_immediate / xrespondent_nb_send_immediate) *)
+Theorem xsurveyor_poll_mirror : forall fx s a, mf_nb fx = true -> UInv (xs_urq s) ->
+  (poll_r (xsurv_poll s) = Some true <-> snd (xsurv_step fx s (PRecv None a true)) <> [Complete a E_AGAIN None]) /\
+  poll_w (xsurv_poll s) = Some true.
+Proof. intros fx s a H1 H2. exact (conj (xsurv_poll_r_mirror fx s a H1 H2) (xsurv_poll_w_mirror s)). Qed.
+Print Assumptions xsurveyor_poll_mirror.
+Theorem xrespondent_poll_mirror : forall fx s a, mf_nb fx = true -> UInv (xr_urq s) ->
+  (poll_r (xresp_poll s) = Some true <-> snd (xresp_step fx s (PRecv None a true)) <> [Complete a E_AGAIN None]) /\
+  poll_w (xresp_poll s) = Some true.
+Proof. intros fx s a H1 H2. exact (conj (xresp_poll_r_mirror fx s a H1 H2) (xresp_poll_w_mirror s)). Qed.
+Print Assumptions xrespondent_poll_mirror.
+Theorem raw_recv_descriptor_mirror_inv : forall u, UInv u -> urq_recvable u = negb (urq_get_waits u).
+Proof. exact urq_recvable_mirror_inv. Qed.
+Print Assumptions raw_recv_descriptor_mirror_inv.
+
 Theorem xsurveyor_nb_send_immediate : forall s a m s' outs c,
   xsurv_step mqfix_all s (PSend c a true m) = (s', outs) -> exists r, outs = Complete a E_OK None :: r.
 Proof. exact xsurv_nb_send_immediate. Qed.
